@@ -139,11 +139,11 @@ fn replay_one(out: &mut Out, op: &str, a: &[Vec<u8>]) {
         // "seq_<op>": <op> on the first half of the arguments, then on the second half; the answer is the second one
         "seq_maximize" | "seq_minimize" => {
             let b = |i: usize| refs.get(i).copied().unwrap_or(&[]);
+            let six: [&[u8]; 6] = [b(0), b(1), b(2), b(3), b(4), b(5)];
             let max = op == "seq_maximize";
-            out.case(op, &refs, || { let _ = if max { likely::maximize(a0, a1, a2) } else { likely::minimize(a0, a1, a2) };
-                                     if max { likely::maximize(b(3), b(4), b(5)) } else { likely::minimize(b(3), b(4), b(5)) } })
+            out.case(op, &refs, || likely::seq_likely(&six, max))
         }
-        "seq_direction_likely" | "seq_direction_plain" => out.case(&format!("seq_{}", likely::DIR_OP), &refs, || { let _ = likely::direction(a0); likely::direction(a1) }),
+        "seq_direction_likely" | "seq_direction_plain" => out.case(&format!("seq_{}", likely::DIR_OP), &refs, || likely::seq_direction(a0, a1)),
         "seq_langid" => out.case(op, &refs, || { let _ = langid::langid(a0); langid::langid(a1) }),
         "seq_locale" => out.case(op, &refs, || { let _ = locale::locale(a0); locale::locale(a1) }),
         "maximize" => out.case(op, &refs, || likely::maximize(a0, a1, a2)),
